@@ -244,131 +244,97 @@ def lastAccepted (e : Ext Pts A) (t0 : Pts) : List Pts → Pts
     if e.nDims t = e.nDims t0 ∧ e.nPoints t = e.nPoints t0 then lastAccepted e t ts
     else lastAccepted e t0 ts
 
-/-! ### the heap view: matrices live in cells, some syncs write them in place, `copy` allocates -/
+/-! ### parameter edits of the homogeneous alignments (`from_vector_inplace`, `set_rotation_matrix`,
+`compose_before_inplace`, `compose_after_inplace`, `compose_after_from_vector_inplace`)
 
-structure Heap (Pts : Type) where
-  /-- ndarray cells holding homogeneous matrices -/
-  mats : Nat → Mat
-  /-- next unused matrix cell -/
-  next : Nat
-  /-- the caller's point sets (PointCloud objects), by reference -/
-  pts : Nat → Pts
+None of them is `set_target`; they are modelled because the property quantifies over *whatever happened
+before*: what they leave behind (a matrix that is no fit at all, a `.target` that is the aligned source, a
+re-bound or partially overwritten array) is the state the next `set_target` starts from. -/
 
-inductive HState (A : Type) where
-  | hom (cell : Nat)
-  | tps (l coef : A)
-  | pwa (tv : A)
+/-- `np.dot(a, b)` on `(d+1)×(d+1)` arrays -/
+def mulMat (d : Nat) (a b : Mat) : Mat :=
+  fun i j => if i ≤ d ∧ j ≤ d then ((List.range (d + 1)).map fun k => a i k * b k j).sum else eye i j
 
-/-- an alignment object on the heap: source and target are *references* to the caller's point sets
-(`self._target = new_target` stores the object it was given), the matrix is a reference to a cell -/
-structure HObj (A : Type) where
-  cls : Cls
-  rotation : Option Bool
-  allowMirror : Option Bool
-  kernel : Option Nat
-  minSV : Option Rat
-  source : Nat
-  target : Nat
-  state : HState A
+inductive EditKind where
+  /-- `_from_vector_inplace(p)` (and `AlignmentRotation.set_rotation_matrix`): `m` is the matrix the
+  parameter vector stands for -/
+  | fromVector
+  /-- `compose_before_inplace(t)`: `m = t.h_matrix`, the new matrix is `np.dot(m, self.h_matrix)` -/
+  | composeBefore
+  /-- `compose_after_inplace(t)`: the new matrix is `np.dot(self.h_matrix, m)` -/
+  | composeAfter
+  deriving DecidableEq, Repr
 
-def updMat (m : Nat → Mat) (c : Nat) (v : Mat) : Nat → Mat := fun k => if k = c then v else m k
+/-- `Targetable._sync_target_from_state` of an alignment: the new target is the aligned source (a new
+point set); `_verify_target` runs first and its exception leaves the already written matrix in place -/
+def syncTarget (e : Ext Pts A) (o : Obj Pts A) : Obj Pts A :=
+  let t := alignedSource e o
+  match verifyTarget e o t with
+  | .ok () => { o with target := t }
+  | .error _ => o
 
-/-- what the object *is*, read through its references -/
-def absObj (hp : Heap Pts) (o : HObj A) : Obj Pts A :=
-  { cls := o.cls, rotation := o.rotation, allowMirror := o.allowMirror, kernel := o.kernel, minSV := o.minSV,
-    source := hp.pts o.source, target := hp.pts o.target,
-    state := match o.state with
-      | .hom c => .hom (hp.mats c)
-      | .tps l k => .tps l k
-      | .pwa tv => .pwa tv }
-
-/-- `_sync_state_from_target` with its real write discipline: rotation / translation / uniform scale
-write into the existing array; affine / similarity bind `_h_matrix` to the array the fit returned
-(`copy=False`); TPS / PWA rebind their arrays. -/
-def hSync (e : Ext Pts A) (hp : Heap Pts) (o : HObj A) : Heap Pts × HObj A :=
-  let s := hp.pts o.source
-  let t := hp.pts o.target
-  let d := e.nDims s
-  match o.cls, o.state with
-  | .affine, .hom _ =>
-    ({ hp with mats := updMat hp.mats hp.next (e.affineOf s t), next := hp.next + 1 },
-     { o with state := .hom hp.next })
-  | .similarity, .hom _ =>
-    let m := e.procrustes (o.rotation.getD true) (o.allowMirror.getD false) s t
-    ({ hp with mats := updMat hp.mats hp.next m, next := hp.next + 1 },
-     { o with state := .hom hp.next })
-  | .rotation, .hom c =>
-    ({ hp with mats := updMat hp.mats c (setBlock d (e.rotationOf (o.allowMirror.getD false) s t) (hp.mats c)) }, o)
-  | .translation, .hom c =>
-    ({ hp with mats := updMat hp.mats c (setLastCol d (e.translationOf s t) (hp.mats c)) }, o)
-  | .uniformScale, .hom c =>
-    ({ hp with mats := updMat hp.mats c (setCorner d (fillDiag d (e.scaleOf s t) (hp.mats c))) }, o)
-  | .tps, .tps l _ => (hp, { o with state := .tps l (e.tpsCoef l (o.minSV.getD (1 / 10000)) t) })
-  | .pwa, .pwa _ => (hp, { o with state := .pwa (e.pwaVectors s t) })
-  | _, _ => (hp, o)
-
-/-- `set_target(new_target)` with `new_target` a reference to a point set of the caller -/
-def hSetTarget (e : Ext Pts A) (hp : Heap Pts) (o : HObj A) (r : Nat) : Heap Pts × HObj A :=
-  match verifyTarget e (absObj hp o) (hp.pts r) with
-  | .error _ => (hp, o)
-  | .ok () => hSync e hp { o with target := r }
-
-/-- `HomogFamilyAlignment.copy` (shallow `__dict__` copy, then a fresh copy of `_h_matrix`);
-`Copyable.copy` for TPS / PWA (deep: the kept arrays are values here) -/
-def hCopy (hp : Heap Pts) (o : HObj A) : Heap Pts × HObj A :=
+/-- one parameter edit, class by class.
+* `AlignmentAffine` overrides `_set_h_matrix`: every way of setting the matrix re-syncs the target;
+* `AlignmentSimilarity._from_vector_inplace` re-binds the matrix and re-syncs the target; its compositions go
+  through `Affine._set_h_matrix` and leave the target alone;
+* `AlignmentRotation.set_rotation_matrix` / `AlignmentTranslation` / `AlignmentUniformScale`
+  `._from_vector_inplace` overwrite *their part* of the existing array and re-sync the target; their
+  compositions re-bind the matrix to the product and leave the target alone;
+* `ThinPlateSplines` / `PiecewiseAffine` have no such methods. -/
+def vEdit (e : Ext Pts A) (o : Obj Pts A) (k : EditKind) (m : Mat) : Obj Pts A :=
+  let d := e.nDims o.source
   match o.state with
-  | .hom c => ({ hp with mats := updMat hp.mats hp.next (hp.mats c), next := hp.next + 1 },
-               { o with state := .hom hp.next })
-  | _ => (hp, o)
+  | .hom h =>
+    let prod : Mat := match k with
+      | .composeBefore => mulMat d m h
+      | .composeAfter => mulMat d h m
+      | .fromVector => m
+    match o.cls, k with
+    | .affine, _ => syncTarget e { o with state := .hom prod }
+    | .similarity, .fromVector => syncTarget e { o with state := .hom m }
+    | .rotation, .fromVector => syncTarget e { o with state := .hom (setBlock d m h) }
+    | .translation, .fromVector => syncTarget e { o with state := .hom (setLastCol d (fun i => m i d) h) }
+    | .uniformScale, .fromVector => syncTarget e { o with state := .hom (setCorner d (fillDiag d (m 0 0) h)) }
+    | .tps, _ => o
+    | .pwa, _ => o
+    | _, _ => { o with state := .hom prod }
+  | _ => o
 
-/-- `Cls(pts[sr], pts[tr], **options)` allocated on the heap: source / target are references to the
-caller's point sets, a homogeneous matrix goes into a fresh cell -/
-def hBuild (tree : Tree) (e : Ext Pts A) (c : Cls) (op : Opts) (hp : Heap Pts) (sr tr : Nat) :
-    Except Err (Heap Pts × HObj A) :=
-  match build tree e c op (hp.pts sr) (hp.pts tr) with
-  | .error err => .error err
-  | .ok o =>
-    let ho (st : HState A) : HObj A :=
-      { cls := o.cls, rotation := o.rotation, allowMirror := o.allowMirror, kernel := o.kernel,
-        minSV := o.minSV, source := sr, target := tr, state := st }
-    match o.state with
-    | .hom h => .ok ({ hp with mats := updMat hp.mats hp.next h, next := hp.next + 1 }, ho (.hom hp.next))
-    | .tps l k => .ok (hp, ho (.tps l k))
-    | .pwa tv => .ok (hp, ho (.pwa tv))
+/-- `pseudoinverse()` of an alignment.  Homogeneous family (`HomogFamilyAlignment.pseudoinverse`): a copy whose
+matrix is re-bound to the inverse (`inv`, abstract) and whose source and target are swapped.  Thin plate splines:
+`ThinPlateSplines(self.target, self.source, kernel=type(self.kernel)(self.target.points),
+min_singular_val=self.min_singular_val)` — a fresh construction in the other direction.  (Piecewise affine builds the
+new source on the *old* triangle list — not the triangulation a fresh construction from a point cloud would use —
+and is left out.) -/
+def pinv (e : Ext Pts A) (inv : Mat → Mat) (o : Obj Pts A) : Obj Pts A :=
+  match o.cls, o.state with
+  | .tps, .tps _ _ =>
+    let l := e.tpsL (o.kernel.getD 0) o.target
+    { o with source := o.target, target := o.source,
+             state := .tps l (e.tpsCoef l (o.minSV.getD (1 / 10000)) o.source) }
+  | .pwa, _ => o
+  | .tps, _ => o
+  | _, .hom h => { o with source := o.target, target := o.source, state := .hom (inv h) }
+  | _, _ => o
 
-/-- caller-side operations on a collection of alignment objects -/
-inductive Op where
-  | setTarget (i : Nat) (r : Nat)   -- objs[i].set_target(pts[r])
-  | copy (i : Nat)                  -- objs.append(objs[i].copy())
+/-- what may happen to one alignment object between two observations: a `set_target`, a parameter edit, or
+the caller overwriting — in place, so the shape stays — the coordinates of the very point set the
+alignment holds as its target (`t.points[...] = v`; the alignment keeps a *reference* to `t`) -/
+inductive VOp (Pts : Type) where
+  | set (t : Pts)
+  | edit (k : EditKind) (m : Mat)
+  | targetMoved (v : Pts)
 
-def setAt {α} (l : List α) (i : Nat) (x : α) : List α := l.set i x
+/-- an in-place write into an ndarray cannot change its shape: a value of another shape is not written -/
+def moveTarget (e : Ext Pts A) (o : Obj Pts A) (v : Pts) : Obj Pts A :=
+  if e.nDims v = e.nDims o.target ∧ e.nPoints v = e.nPoints o.target then { o with target := v } else o
 
-def hStep (e : Ext Pts A) (st : Heap Pts × List (HObj A)) : Op → Heap Pts × List (HObj A)
-  | .setTarget i r =>
-    match st.2[i]? with
-    | some o => let (hp', o') := hSetTarget e st.1 o r; (hp', st.2.set i o')
-    | none => st
-  | .copy i =>
-    match st.2[i]? with
-    | some o => let (hp', o') := hCopy st.1 o; (hp', st.2 ++ [o'])
-    | none => st
+def vApply (e : Ext Pts A) (o : Obj Pts A) : VOp Pts → Obj Pts A
+  | .set t => step e o t
+  | .edit k m => vEdit e o k m
+  | .targetMoved v => moveTarget e o v
 
-def hRun (e : Ext Pts A) (st : Heap Pts × List (HObj A)) (ops : List Op) : Heap Pts × List (HObj A) :=
-  ops.foldl (hStep e) st
-
-/-- the same program on independent *values* (no sharing at all): the specification -/
-def vStep (e : Ext Pts A) (pts : Nat → Pts) (os : List (Obj Pts A)) : Op → List (Obj Pts A)
-  | .setTarget i r =>
-    match os[i]? with
-    | some o => os.set i (step e o (pts r))
-    | none => os
-  | .copy i =>
-    match os[i]? with
-    | some o => os ++ [o]
-    | none => os
-
-def vRun (e : Ext Pts A) (pts : Nat → Pts) (os : List (Obj Pts A)) (ops : List Op) : List (Obj Pts A) :=
-  ops.foldl (vStep e pts) os
+def vHistory (e : Ext Pts A) (o : Obj Pts A) (ops : List (VOp Pts)) : Obj Pts A := ops.foldl (vApply e) o
 
 /-! ### generalized Procrustes analysis -/
 
@@ -433,5 +399,34 @@ def gpa (tr : Tree) (e : Ext Pts A) (g : GpaExt Pts) (maxIter : Nat) (sources : 
     | .ok r => match target with
       | some t => .ok { r with target := t }   -- `if target is not None: self.target = initial_target`
       | none => .ok r
+
+/-- `mean_aligned_shape()`: as coded, the mean of the transforms' **targets** -/
+def meanAlignedShape (g : GpaExt Pts) (r : Gpa Pts A) : Pts := g.meanOf (r.transforms.map fun o => o.target)
+
+/-- `alignment_error()` of every transform (`dist` = Frobenius norm of the difference, abstract);
+`mean_alignment_error()` is their sum over `n_sources` -/
+def alignmentErrors (e : Ext Pts A) (dist : Pts → Pts → Rat) (r : Gpa Pts A) : List Rat :=
+  r.transforms.map fun o => dist o.target (alignedSource e o)
+
+/-- one round computed **with freshly constructed alignments only** -/
+def freshRound (tr : Tree) (e : Ext Pts A) (g : GpaExt Pts) (op : Opts) (initial : Pts) (sources : List Pts)
+    (t : Pts) : Except Err Pts :=
+  match buildAll tr e op t sources with
+  | .error err => .error err
+  | .ok ts => .ok (g.newTarget initial (ts.map (alignedSource e)))
+
+/-- the whole iteration with fresh alignments only (no object is ever retargeted): reported target,
+`n_iterations`, `converged`.  This is what `harness/c08.py: ref_gpa` runs. -/
+def refGpa (tr : Tree) (e : Ext Pts A) (g : GpaExt Pts) (op : Opts) (initial : Pts) (sources : List Pts) :
+    Nat → Pts → Nat → Except Err (Pts × Nat × Bool)
+  | 0, t, n => .ok (t, n, false)
+  | fuel + 1, t, n =>
+    match freshRound tr e g op initial sources t with
+    | .error err => .error err
+    | .ok t' =>
+      if g.closeEnough t t' then .ok (t, n, true)
+      else match buildAll tr e op t' sources with
+        | .error err => .error err
+        | .ok _ => refGpa tr e g op initial sources fuel t' (n + 1)
 
 end MenpoModel.C08
